@@ -59,6 +59,12 @@ TARGETS = [
     ("crates/oxidd-ffi-c/src/util/mod.rs", ["C19"]),
     ("crates/oxidd-ffi-c/src/zbdd.rs", ["C19"]),
     ("crates/oxidd-manager-pointer/src/manager.rs", ["C20"]),
+    # added in the third session (new model areas)
+    ("crates/oxidd-parser/src/dimacs.rs", ["C18"]),
+    ("crates/oxidd-parser/src/nnf.rs", ["C18"]),
+    ("crates/oxidd-rules-mtbdd/src/terminal/f64.rs", ["C10"]),
+    ("crates/oxidd-manager-pointer/src/util/var_level_map.rs", ["C20"]),
+    ("crates/oxidd-manager-index/src/node/fixed_arity.rs", ["C05", "C07"]),
 ]
 
 OPS = [
